@@ -572,6 +572,32 @@ func (g *Gen) execInstr(in ssa.Instruction) error {
 		}
 		g.assume(sx("<", v.T, "0"))
 		g.vals[x] = v
+		// //verif:created requires E on the closure's contract: checked where the
+		// closure value is made, in the PARENT's context (its call history, its
+		// locals), with the contract's parameter names bound to the captured values
+		if cc := g.eng.closureContract(fn); cc != nil && len(cc.Created) > 0 {
+			env := map[string]*Val{}
+			for k, vv := range g.env {
+				env[k] = vv
+			}
+			for i, n := range cc.Params {
+				if i < len(v.Binds) && n != "_" {
+					env[n] = v.Binds[i]
+				}
+			}
+			for i, cl := range cc.Created {
+				sc := g.specCtx(env, g.cur, g.init)
+				t, err := sc.evalBool(cl.E)
+				if err != nil {
+					g.fail("created requires %s (closure %s): %v", cl.Src, cc.Key, err)
+				}
+				label := cl.Label
+				if label == "" {
+					label = fmt.Sprintf("%d", i)
+				}
+				g.oblige("created", label, t, g.pos(in), "closure "+cc.Key+" is created only when: "+cl.Src)
+			}
+		}
 	case *ssa.MakeInterface:
 		xv := g.val(x.X)
 		box, _ := g.st.boxFun(x.X.Type())
